@@ -226,3 +226,14 @@ Example bridge_nulls_here :
   [[PKey (C01.nm "o")]; [PKey (C01.nm "l")]] /\
   site_paths (visible_nulls bridged_async) = [[PKey (C01.nm "o")]; [PKey (C01.nm "l")]].
 Proof. vm_compute. split; reflexivity. Qed.
+
+(** … with their candidates: o is explained by the error at o.n, l by the error at l.1 *)
+From ApiFu Require Import Fut.BridgeCands.
+Example bridge_candidates_here :
+  null_sites (ExecSpec.failure_nulls (ExecSpec.exec_spec C01.ex_schema C01.ex_doc C01.ex_env C01.ex_fuel C01.ex_W)) =
+  [ ([PKey (C01.nm "o")], [[PKey (C01.nm "o"); PKey (C01.nm "n")]]);
+    ([PKey (C01.nm "l")], [[PKey (C01.nm "l"); PIdx 1]]) ] /\
+  plan_sites (visible_nulls bridged_async) =
+  [ ([PKey (C01.nm "o")], [[PKey (C01.nm "o"); PKey (C01.nm "n")]]);
+    ([PKey (C01.nm "l")], [[PKey (C01.nm "l"); PIdx 1]]) ].
+Proof. vm_compute. split; reflexivity. Qed.
